@@ -65,6 +65,12 @@ def tasks(tier, seed):
                        "T": T, "R": [1.0, -1.0] if wrapper else list(configs.R3), "base": base,
                        "k": 1 if (tier == "quick" or vroom or wrapper) else 2,
                        "max_exec": 2500 if tier == "quick" else 50000})
+    # StroquOOL: one budget per value of h_max (1..8), whole run on three reward scripts (k=0: one execution each)
+    for n in (100, 185, 326, 482, 649, 826, 1011, 1203):
+        for base in ("peak", "zero", "alt"):
+            cfg = configs.cfg("StroquOOL", "Binary", None, configs.BOXES["u1"], n=n)
+            ts.append({"kind": "algo", "label": "base/StroquOOL%d/%s" % (n, base), "cfg": cfg, "mode": "dev", "T": min(n, 450),
+                       "R": list(configs.R2), "base": base, "k": 0, "cost": 2})
     for n in (600, 1000):
         cfg = configs.cfg("StroquOOL", "Binary", None, configs.BOXES["u1"], n=n)
         ts.append({"kind": "algo", "label": "dev/StroquOOL%d" % n, "cfg": cfg, "mode": "dev", "T": 60 if tier == "quick" else 100,
